@@ -136,7 +136,8 @@ func (d *Data) Encode() ([]byte, error) {
 	if err := utils.Compress(buf, compressed); err != nil {
 		return nil, err
 	}
-	return compressed.Bytes(), nil
+	// the buffer goes back to the pool when this function returns, the caller gets its own copy
+	return bytes.Clone(compressed.Bytes()), nil
 }
 
 func (d *Data) Decode(data []byte) error {
